@@ -321,6 +321,8 @@ struct FnJob {
     name: String,
     info_idx: usize,
     module: usize,
+    /// `inst=P:Type,..`: type parameters of the function instantiated with configured types (a monomorphic instance)
+    inst: BTreeMap<String, Ty>,
 }
 
 enum Decl {
@@ -957,7 +959,7 @@ impl Driver {
         Ok(())
     }
 
-    fn add_fn(&mut self, file: &str, spec: &str, coq_as: Option<String>, module: usize) -> R<()> {
+    fn add_fn(&mut self, file: &str, spec: &str, coq_as: Option<String>, inst: Option<String>, module: usize) -> R<()> {
         self.load(file)?;
         let parts = split_spec(spec);
         let (self_ty, trait_spec, name) = match parts.len() {
@@ -973,7 +975,21 @@ impl Driver {
             gens.extend(Self::generics_of(g));
         }
         let st = self_ty.as_deref();
-        let isub = self.instance_subst(st, ff.impl_self)?;
+        let mut isub = self.instance_subst(st, ff.impl_self)?;
+        let mut inst_map: BTreeMap<String, Ty> = BTreeMap::new();
+        if let Some(inst) = &inst {
+            let fn_gens = Self::generics_of(&ff.sig.generics);
+            for part in inst.split(',') {
+                let (g, t) = part.split_once(':').ok_or_else(|| format!("{} `{}`: `inst={}` is not Param:Type[,..]", file, spec, inst))?;
+                if !fn_gens.contains(g) {
+                    return Err(format!("{} `{}`: `{}` is not a type parameter of the function", file, spec, g));
+                }
+                let ty: Type = syn::parse_str(t).map_err(|e| format!("inst type `{}`: {}", t, e))?;
+                let ty = self.conv(&ty, &BTreeSet::new(), None, None)?;
+                inst_map.insert(g.to_string(), ty.clone());
+                isub.insert(g.to_string(), ty);
+            }
+        }
         let mut const_generics = vec![];
         for p in ff.sig.generics.params.iter() {
             if let GenericParam::Const(c) = p {
@@ -1189,7 +1205,7 @@ impl Driver {
         let info = FnInfo { key: spec.to_string(), name: name.clone(), coq, self_ty: self_ty.clone(), trait_name: trait_spec.clone(), self_kind, const_generics, assoc_params, params, mut_params, mvars, generic_names: ff.sig.generics.params.iter().filter_map(|p| if let GenericParam::Type(t) = p { Some(t.ident.to_string()) } else { None }).collect(), impl_args: impl_args.clone(), file: file.to_string(), ret, fuel: false };
         self.tables.fns.push(info);
         let idx = self.tables.fns.len() - 1;
-        self.jobs.push(FnJob { file: file.to_string(), self_ty, trait_spec, name, info_idx: idx, module });
+        self.jobs.push(FnJob { file: file.to_string(), self_ty, trait_spec, name, info_idx: idx, module, inst: inst_map });
         self.modules[module].decls.push(Decl::Fn(self.jobs.len() - 1));
         Ok(())
     }
@@ -1225,7 +1241,7 @@ impl Driver {
         let (ty, ex, l1, l2) = found[0];
         let mvars = self.mvars_of(quote::ToTokens::to_token_stream(ex), None, file);
         let ty = self.conv(ty, &BTreeSet::new(), st.as_deref(), None)?;
-        let mut tr = Tr { t: &self.tables, self_ty: st.clone(), ret_ty: ty.clone(), mut_self: false, counter: BTreeMap::new(), mut_methods: BTreeSet::new(), generic_tys: BTreeSet::new(), subst: BTreeMap::new(), fuel: false, needs_fuel: false, fuel_var: String::new(), fuel_names: BTreeSet::new(), mutarg_names: BTreeSet::new(), mut_params: vec![], ret_coq: String::new(), loops: vec![], fn_assigned: BTreeSet::new(), cur_file: file.to_string(), fn_coq: String::new(), loop_counter: 0, aux_defs: vec![], turbofish_types: None, self_coq: String::new(), mut_param_coq: vec![] };
+        let mut tr = Tr { t: &self.tables, self_ty: st.clone(), ret_ty: ty.clone(), mut_self: false, counter: BTreeMap::new(), mut_methods: BTreeSet::new(), generic_tys: BTreeSet::new(), subst: BTreeMap::new(), fuel: false, needs_fuel: false, fuel_var: String::new(), fuel_names: BTreeSet::new(), mutarg_names: BTreeSet::new(), mut_params: vec![], ret_coq: String::new(), loops: vec![], fn_assigned: BTreeSet::new(), cur_file: file.to_string(), fn_coq: String::new(), loop_counter: 0, aux_defs: vec![], turbofish_types: None, inst_traits: BTreeMap::new(), self_coq: String::new(), mut_param_coq: vec![] };
         let mut cenv = Env::default();
         let cbinders = self.mvar_binders(&mvars, &mut tr, &mut cenv)?;
         let v = tr.pure(ex, &cenv, Some(&ty)).map_err(|e| format!("{} const `{}`: {}", file, spec, e))?;
@@ -1293,7 +1309,11 @@ impl Driver {
             counter: BTreeMap::new(),
             mut_methods,
             generic_tys: gens,
-            subst: self.instance_subst(job.self_ty.as_deref(), ff.impl_self).map_err(nf)?,
+            subst: {
+                let mut m = self.instance_subst(job.self_ty.as_deref(), ff.impl_self).map_err(nf)?;
+                m.extend(job.inst.iter().map(|(k, v)| (k.clone(), v.clone())));
+                m
+            },
             fuel,
             needs_fuel: false,
             fuel_var: "fuel'".into(),
@@ -1308,6 +1328,42 @@ impl Driver {
             loop_counter: 0,
             aux_defs: vec![],
             turbofish_types: None,
+            inst_traits: {
+                let mut m: BTreeMap<String, BTreeSet<String>> = BTreeMap::new();
+                for (g, t) in job.inst.iter() {
+                    let key = match t {
+                        Ty::Adt(k) => k.clone(),
+                        _ => continue,
+                    };
+                    let e = m.entry(key).or_default();
+                    let mut add = |bounds: &syn::punctuated::Punctuated<TypeParamBound, Token![+]>| {
+                        for b in bounds.iter() {
+                            if let TypeParamBound::Trait(tb) = b {
+                                if let Some(s) = tb.path.segments.last() {
+                                    e.insert(s.ident.to_string());
+                                }
+                            }
+                        }
+                    };
+                    for p in ff.sig.generics.params.iter() {
+                        if let GenericParam::Type(tp) = p {
+                            if tp.ident == g {
+                                add(&tp.bounds);
+                            }
+                        }
+                    }
+                    if let Some(w) = &ff.sig.generics.where_clause {
+                        for pr in w.predicates.iter() {
+                            if let WherePredicate::Type(pt) = pr {
+                                if matches!(&pt.bounded_ty, Type::Path(tp) if tp.path.is_ident(g)) {
+                                    add(&pt.bounds);
+                                }
+                            }
+                        }
+                    }
+                }
+                m
+            },
             self_coq: String::new(),
             mut_param_coq: vec![],
         };
@@ -1521,8 +1577,8 @@ fn main() {
             continue;
         }
         let w: Vec<&str> = line.split_whitespace().collect();
-        let opts: BTreeMap<String, String> = w.iter().filter_map(|x| x.split_once('=').filter(|(a, _)| !a.is_empty() && *a != "").map(|(a, b)| (a.to_string(), b.to_string()))).filter(|(a, _)| a == "as" || a == "eqb").collect();
-        let w: Vec<&str> = w.into_iter().filter(|x| !(x.starts_with("as=") || x.starts_with("eqb="))).collect();
+        let opts: BTreeMap<String, String> = w.iter().filter_map(|x| x.split_once('=').filter(|(a, _)| !a.is_empty() && *a != "").map(|(a, b)| (a.to_string(), b.to_string()))).filter(|(a, _)| a == "as" || a == "eqb" || a == "inst").collect();
+        let w: Vec<&str> = w.into_iter().filter(|x| !(x.starts_with("as=") || x.starts_with("eqb=") || x.starts_with("inst="))).collect();
         let cur = d.modules.len().wrapping_sub(1);
         let res: R<()> = match w[0] {
             "module" if w.len() == 2 => {
@@ -1595,7 +1651,7 @@ fn main() {
                     }
                 }
             }
-            "fn" if w.len() == 3 => d.add_fn(w[1], w[2], opts.get("as").cloned(), cur),
+            "fn" if w.len() == 3 => d.add_fn(w[1], w[2], opts.get("as").cloned(), opts.get("inst").cloned(), cur),
             // macro <file> <macro name> <arm> as <virtual file> [$name=tokens ...]
             "macro" if w.len() >= 6 && w[4] == "as" => match w[3].parse::<usize>() {
                 Ok(arm) => d.add_macro(w[1], w[2], arm, w[5], &w[6..]),
